@@ -341,6 +341,9 @@ func runC12(env *Env) {
 		defer m.Close()
 		if wrap.Case.Kind == "lru" {
 			c12Lru(env, m, &wrap.Case)
+		} else if wrap.Case.Kind == "lru-sessions" {
+			// the sessions are regenerated from the seed (the case shows the session that failed)
+			c12LruSessions(env, m, &C12Case{Kind: "lru", Seed: wrap.Case.Seed})
 		} else {
 			ch, _ := wvlib.StartChild("C12")
 			defer ch.Close()
@@ -439,6 +442,9 @@ func runC12(env *Env) {
 		rg := <-rigs
 		defer func() { rigs <- rg }()
 		c12Lru(env, rg.m, lcases[i])
+		if i%4 == 0 {
+			c12LruSessions(env, rg.m, lcases[i])
+		}
 		if i == 0 {
 			R.Sample(lcases[i])
 		}
@@ -456,6 +462,97 @@ func b2i(b bool) int64 {
 		return 1
 	}
 	return 0
+}
+
+// c12LruSessions: ONE lrufile object used for several files in a row (Reset between them, as the patcher reuses
+// its PatchContext from file to file and from resume to resume); every session must behave like a fresh lrufile
+// on that file (the model) and like a plain reader (the oracle).  Sessions often start reading exactly where the
+// previous session's last chunk load ended.
+func c12LruSessions(env *Env, m *wvlib.Model, c *C12Case) {
+	r := wvlib.NewRng(c.Seed ^ 0x5e55)
+	chunk := 1 + r.Intn(9)
+	capN := 1 + r.Intn(4)
+	lf, err := lrufile.New(int64(chunk), capN)
+	if err != nil {
+		return
+	}
+	lastLoadEnd := 0
+	for sess := 0; sess < 2+r.Intn(3); sess++ {
+		file := r.Bytes(r.Pick(chunk*capN+1, 3*chunk, r.Intn(60)+1, 40))
+		var ops []string
+		if sess > 0 && r.Bool() && lastLoadEnd <= len(file) {
+			ops = append(ops, fmt.Sprintf("s%d", lastLoadEnd))
+		}
+		for i := 0; i < 1+r.Intn(8); i++ {
+			if r.Intn(3) == 0 {
+				ops = append(ops, fmt.Sprintf("s%d", r.Intn(len(file)+2)))
+			} else {
+				ops = append(ops, fmt.Sprintf("r%d", r.Pick(1, chunk, chunk+1, r.Intn(20))))
+			}
+		}
+		sc := &C12Case{Kind: "lru-sessions", Seed: c.Seed, Chunk: chunk, Cap: capN, File: hex.EncodeToString(file), Ops: strings.Join(ops, ","), Split: sess}
+		impl := func() (res string) {
+			defer func() {
+				if rec := recover(); rec != nil {
+					res = fmt.Sprintf("PANIC %v", rec)
+				}
+			}()
+			if err := lf.Reset(bytes.NewReader(file)); err != nil {
+				return "ERR " + err.Error()
+			}
+			ref := bytes.NewReader(file)
+			pos := 0
+			var outs []string
+			for _, op := range ops {
+				var n int
+				fmt.Sscan(op[1:], &n)
+				if op[0] == 's' {
+					if _, err := lf.Seek(int64(n), io.SeekStart); err != nil {
+						outs = append(outs, "-")
+						ref.Seek(0, io.SeekStart)
+						pos = 0
+					} else {
+						outs = append(outs, "ok")
+						ref.Seek(int64(n), io.SeekStart)
+						pos = n
+					}
+				} else {
+					buf := make([]byte, n)
+					k, err := lf.Read(buf)
+					if err != nil && err != io.EOF {
+						return "ERR " + err.Error()
+					}
+					outs = append(outs, fmt.Sprintf("%d %d", k, wvlib.Fnv(buf[:k])))
+					rb := make([]byte, n)
+					rk, _ := io.ReadFull(ref, rb)
+					if rk != k || !bytes.Equal(rb[:rk], buf[:k]) {
+						env.R.Violate("lru-read-differs-after-reset", fmt.Sprintf("session %d op %s returned %d bytes %x, plain reader %d bytes %x", sess, op, k, buf[:k], rk, rb[:rk]), sc)
+					}
+					if k > 0 {
+						pos += k
+						// the chunk holding the last byte read was loaded (or hit); a load ends at the next chunk boundary
+						lastLoadEnd = ((pos-1)/chunk + 1) * chunk
+						if lastLoadEnd > len(file) {
+							lastLoadEnd = len(file)
+						}
+					}
+				}
+			}
+			st := lf.Stats()
+			return strings.Join(outs, ";") + fmt.Sprintf(" hits=%d misses=%d", st.Hits, st.Misses) // Reset zeroes the counters
+		}()
+		if strings.HasPrefix(impl, "PANIC") || strings.HasPrefix(impl, "ERR") {
+			env.R.Violate("lru-fails", impl, sc)
+			return
+		}
+		ans, err := m.Ask(fmt.Sprintf("lru %d %d x:%s %s", chunk, capN, sc.File, sc.Ops))
+		if err != nil {
+			env.R.Disagree(sc, impl, "MODEL-DIED", "n/a")
+		} else if ans != impl {
+			env.R.Disagree(sc, impl, ans, "a session after Reset must behave like a fresh lrufile on that file")
+		}
+		env.R.Count("lru-sessions", 1)
+	}
 }
 
 // c12Lru: one random op sequence on the real lrufile, the model, and a bytes.Reader.
